@@ -178,6 +178,9 @@ func (e *esdtTransferParser) createNewESDTTransfer(
 			if err != nil {
 				return nil, err
 			}
+			if transferESDTData.Value == nil {
+				return nil, ErrNotEnoughArguments
+			}
 			esdtTransfer.ESDTValue.Set(transferESDTData.Value)
 		}
 	}
